@@ -33,7 +33,8 @@ def dsmDiffs (m : Mode) : Nat → List Int → Int → Int → R (List Int × In
 def Dsm.update (m : Mode) (s : Dsm) (x : Int) : R (Dsm × Int) := do
   let (a', d) := dsmAccs s.a x 0
   let k : Int := s.a.length
-  let n ← arithU m 64 "dsm.rs:49 K - 1" (k - 1)
+  -- `take(K.saturating_sub(1))` (since the `fix:` commit; it was `take(K - 1)`, a usize underflow for K = 0)
+  let n : Int := if k ≥ 1 then k - 1 else 0
   let (c', y) ← dsmDiffs m n.toNat s.c d (d % 2)
   .ok ({ a := a', c := c' }, y)
 
